@@ -119,7 +119,15 @@ PairSweep ==
     LET x == IF q <= 256 THEN 2048 + (q - 1) ELSE ((q * 251) % 65536)  h == x \div 256  sg == x % 256
         sv == [alg |-> Some([hash |-> h, sign |-> sg]), data |-> <<q % 256>>]  v == EcdhVals[2] IN
     << Mk("cas", "parse_content_and_signature", "ecdh", 1, EncEcdhParams(v) \o EncSigned(sv), [content |-> v, sig |-> sv], 0) >>])
-ASSUME TLCSet(1, LongTailCases \o PairSweep \o EncCases(DhSignVals, EncDhParams, "parse_dh_params") \o AmbCases \o EncCases(DhVals, EncDhParams, "parse_dh_params") \o EncCases(PointVals, EncEcPoint, "ECPoint::parse")
+(* every truncation of content ++ signature, under both flags (in particular the cut exactly between the two) *)
+CasCutCases ==
+  Concat([q \in 1..4 |->
+    LET sub == <<"dh", "ecdh", "dh", "ecdh">>[q]  flag == <<0, 0, 1, 1>>[q]
+        v == IF sub = "dh" THEN DhSignVals[1] ELSE EcdhVals[2]
+        sg == IF flag = 1 THEN SignedNew[2] ELSE SignedOld[2]
+        e == SubEnc(sub, v) \o EncSigned(sg) IN
+    [k1 \in 1..Len(e) |-> Mk("cut", "parse_content_and_signature", sub, flag, SubSeq(e, 1, k1 - 1), <<>>, 0)]])
+ASSUME TLCSet(1, LongTailCases \o CasCutCases \o PairSweep \o EncCases(DhSignVals, EncDhParams, "parse_dh_params") \o AmbCases \o EncCases(DhVals, EncDhParams, "parse_dh_params") \o EncCases(PointVals, EncEcPoint, "ECPoint::parse")
                  \o EncCases(EcVals, EncEcParameters, "parse_ec_parameters") \o EncCases(EcdhVals, EncEcdhParams, "parse_ecdh_params")
                  \o EncCases(SignedNew, EncSigned, "parse_digitally_signed") \o EncCases(SignedOld, EncSigned, "parse_digitally_signed_old")
                  \o CutCases(DhVals, EncDhParams, "parse_dh_params") \o CutCases(EcVals, EncEcParameters, "parse_ec_parameters")
